@@ -118,6 +118,61 @@ pub mod mixed {
     }
 }
 
+/// opaque (non-visible-fn) items containing a bare `=` outside any delimiter group and ending in a
+/// brace group, not in `;` — each followed by a visible fn that must still get its method
+#[entrait(pub OpaqueEq)]
+pub mod opaque_eq {
+    pub const LIMIT: u32 = 3;
+    fn capped(v: &[u32]) -> impl Iterator<Item = u32> + '_ {
+        v.iter().copied().take(LIMIT as usize)
+    }
+    pub fn total<D>(deps: &D, v: &[u32]) -> u32 {
+        capped(v).sum()
+    }
+    fn generic_eq<I: Iterator<Item = u8>>(i: I) -> usize {
+        i.count()
+    }
+    pub(crate) fn count<D>(deps: &D, v: &[u8]) -> usize {
+        generic_eq(v.iter().copied())
+    }
+    pub struct Defaulted<T = u32> {
+        pub t: T,
+    }
+    pub fn after_struct<D>(deps: &D) -> u8 {
+        1
+    }
+    impl<T> Defaulted<T>
+    where
+        T: IntoIterator<Item = u8>,
+    {
+        pub fn in_impl(self) -> usize {
+            self.t.into_iter().count()
+        }
+    }
+    pub fn after_impl<D>(deps: &D) -> u8 {
+        2
+    }
+    pub trait WithDefaultParam<Rhs = Self> {
+        fn cmp_to(&self, rhs: &Rhs) -> bool;
+    }
+    pub fn after_trait<D>(deps: &D) -> u8 {
+        3
+    }
+    pub enum Either<L = u8, R = L> {
+        L(L),
+        R(R),
+    }
+    pub static NAME: &str = "stats";
+    pub fn name<D>(deps: &D) -> &'static str {
+        NAME
+    }
+    pub const POINT: Defaulted = Defaulted { t: 1 };
+    pub const COND: u8 = if LIMIT > 2 { 1 } else { 2 };
+    pub fn last<D>(deps: &D) -> u8 {
+        COND
+    }
+}
+
 /// a path-restricted trait visibility in module mode
 #[entrait(pub(in crate::c08_modules) PathVis)]
 pub mod path_vis {
@@ -135,6 +190,10 @@ mod only_private {
     pub struct S;
 }
 
+fn client_opaque_eq(app: &Impl<()>) -> u32 {
+    app.total(&[1]) + app.count(&[1]) as u32 + (app.after_struct() + app.after_impl() + app.after_trait() + app.last()) as u32
+        + app.name().len() as u32
+}
 fn client(app: &Impl<()>) -> u8 {
     app.plain(1) + app.v_crate(1) + app.v_self(1) + app.first(1) + app.second(1) + app.third([1, 2])
 }
